@@ -36,6 +36,8 @@ type exchCase struct {
 	Seq    []*exchCase `json:"seq"`
 	SeqPos int         `json:"seqpos"`
 	SeqLen int         `json:"seqlen"`
+	// Defaults = 1: the client is created with a zero-valued configuration (the library's default timeouts: 2 s read)
+	Defaults int `json:"defaults"`
 }
 
 var errInjected = errors.New("verif: injected transport failure")
@@ -303,7 +305,10 @@ func newExchClient(kind string, hooks bool, timeoutMs int, serialNil bool) *exch
 		ec.cl = nc
 		ec.connect = func() error { return nc.Connect(context.Background(), "verif:502") }
 	case "serial":
-		opts := []modbus.SerialClientOptionFunc{modbus.WithSerialReadTimeout(timeout)}
+		opts := []modbus.SerialClientOptionFunc{}
+		if timeout > 0 {
+			opts = append(opts, modbus.WithSerialReadTimeout(timeout))
+		}
 		if hk != nil {
 			opts = append(opts, modbus.WithSerialHooks(hk))
 		}
@@ -319,6 +324,10 @@ func newExchClient(kind string, hooks bool, timeoutMs int, serialNil bool) *exch
 }
 
 func runExchange(c *exchCase, timeoutMs int) []Ev {
+	if c.Defaults == 1 {
+		ec := newExchClient(c.Client, c.Hooks == 1, 0, c.Fault == "notconnected")
+		return ec.run(c, 2000) // what the library documents as its default total read timeout
+	}
 	ec := newExchClient(c.Client, c.Hooks == 1, timeoutMs, c.Fault == "notconnected")
 	return ec.run(c, timeoutMs)
 }
